@@ -10,7 +10,7 @@ META = {
                   "source (listed files with tokens and flags); TLC checks for every option set and processing order that the designed machine yields "
                   "target = listed minus excluded with equal tokens, truthful counts (extracted + skipped = source), skips only for reasons an option names, "
                   "verify => equal, termination; and that the implementation machine (the code's deviations as named actions) violates them. TLC enumerates "
-                  "source classes (V1..V4 x attributes x empty file x weak (signature) file x source sector size 512 B / 16 KiB x provenance (built, modified in place, embedded at 512/1024, superset listfile); plain, raw, encrypted, "
+                  "source classes (V1..V4 x attributes x empty file x weak (signature) file x source sector size 512 B / 16 KiB x provenance (built, modified in place, embedded at 512/1024, superset listfile) x composition of the source's (listfile) (names itself or not, names (attributes) or not, leaves out ordinary files of the archive); plain, raw, encrypted, "
                   "fix-key compressed / raw, multi-sector files sized so that every class changes between single-unit and multi-sector layout; store-raw "
                   "boundary files) x rebuild options (target version, compression / sector-size override 512 B / 4 KiB / 16 KiB, skip filters, verify, "
                   "list-only: full product in thorough, all single deviations plus selected pairs in quick); every case is run through the real rebuild_archive, then every listed source name is read from the target, the target is listed and "
@@ -39,12 +39,19 @@ def sig(b):
     o = rb.get("opts") or rec.get("opts") or {}
     return {"ev": b.get("ev"), "why": str(b.get("why", "")).strip().strip('"'), "ver": "v12" if r.get("ver", 1) <= 2 else "v34",
             "empty": bool(r.get("empty")), "sigfile": bool(r.get("sigfile")), "sbs": r.get("sbs", -1), "bs": o.get("bs", -1), "edge": bool(r.get("edge")), "pow": r.get("pow", 0), "prov": r.get("prov", "built"), "skipSig": bool(o.get("skipSig")), "n": _ncls(rec.get("n")), "comp": o.get("comp", ""), "skipEnc": bool(o.get("skipEnc")), "verify": bool(o.get("verify")),
-            "res": str(rec.get("res", "")).split(":")[0], "msg": rec.get("msg", "")}
+            "res": str(rec.get("res", "")).split(":")[0], "msg": rec.get("msg", ""),
+            # round 4: composition of the source's (listfile): names itself / names (attributes) / leaves out ordinary files
+            "lfself": bool((r.get("lf") or {}).get("lfself", True)), "lfattr": bool((r.get("lf") or {}).get("lfattr", True)) or not r.get("at"),
+            "lfhide": bool((r.get("lf") or {}).get("lfhide", False)), "unl": bool(r.get("unlisted"))}
 
 
 def run(ctx, cases_override=None):
-    ctx.mc("MC_Rebuild", timeout=300, workers=2, allow_uncovered=("VerifyFail",))
-    for cfg, what in (("MC_Rebuild_codeA", "Invariant TargetExact is violated"), ("MC_Rebuild_codeB", "Invariant NeverFails is violated")):
+    # two source classes: the (listfile) names itself (copied) / it does not and further names are unlisted (generated)
+    ctx.mc("MC_Rebuild", timeout=300, workers=2, allow_uncovered=("VerifyFail", "BuildGenerateListfile"))
+    ctx.mc("MC_Rebuild", cfg="MC_Rebuild_noself", timeout=300, workers=2, allow_uncovered=("VerifyFail", "BuildCopyListfile"))
+    for cfg, what in (("MC_Rebuild_codeA", "Invariant TargetExact is violated"), ("MC_Rebuild_codeB", "Invariant NeverFails is violated"),
+                      ("MC_Rebuild_codeC", "Invariant TargetEnumerable is violated"), ("MC_Rebuild_codeD", "Invariant NeverFails is violated"),
+                      ("MC_Rebuild_codeE", "Invariant CountsTruthful is violated")):
         rc, text = ctx.tlc("MC_Rebuild", cfg, workers=1, timeout=300, tag="mc-" + cfg)
         if what not in text:
             raise core.ToolError(f"stage A: {cfg}: expected `{what}`:\n" + core._tail(text))
@@ -68,7 +75,7 @@ def run(ctx, cases_override=None):
     for r in recs:
         kinds[r["ev"]] = kinds.get(r["ev"], 0) + 1
         if r["ev"] == "Reset":
-            srcs.add((r["ver"], r["at"], r["empty"]))
+            srcs.add((r["ver"], r["at"], r["empty"], r.get("prov"), json.dumps(r.get("lf"), sort_keys=True)))
         if r["ev"] in ("Rebuild", "Compare") and len(samples) < 6:
             samples.append(r)
     cov = {
@@ -84,7 +91,7 @@ def run(ctx, cases_override=None):
         "exhaustive_part": "thorough: full product of source classes x options (minus combinations that list_only / skip_signatures make equivalent); "
                            "quick: all single deviations from the default options and the pairs target x compression, target x verify, skip_encrypted x verify, compression x sector size, compression x verify",
     }
-    assumptions = ["sources are ArchiveBuilder products, optionally modified in place through MutableArchive, embedded behind a prefix, or built with a superset listfile; sources without any listfile are not covered", "signature files are weak-signature files by name ((signature), 72 bytes, listed); their cryptographic validity is not part of C07",
+    assumptions = ["sources are ArchiveBuilder products, optionally modified in place through MutableArchive, embedded behind a prefix, or built with an external listfile (superset; not naming itself / (attributes) / two ordinary files); sources without any listfile are not covered; files of the source that its (listfile) does not name are not demanded in the target; the summary counts are over the listed files", "signature files are weak-signature files by name ((signature), 72 bytes, listed); their cryptographic validity is not part of C07",
                    "single process; the file system does not fail"]
     return core.finish(ctx, "model_checking", cov, assumptions, res["bad"], sig_fn=sig, trace=trace)
 
